@@ -160,6 +160,35 @@ pub fn generate(seed: u64, tier: Tier) -> Case {
         ));
         params.notes.push("env:module_file_name_with_extra_dot".into());
     }
+    // A module whose file name is unusual (dots only, a blank, punctuation, non-ASCII, a digit
+    // first), at any depth; the ones pyxis accepts must land at their mirrored path like any
+    // other (the rejected ones are vacuous here and C12's business).
+    if rng.chance(1, 10) {
+        let stem = *rng.pick(&[
+            "..", "...", "a..b", ".a", "a b", " ", "-", "a-b", "\u{e9}t\u{e9}", "m\u{b2}", "3d", "_", "x.y.z", "..a",
+        ]);
+        let dir = match rng.below(4) {
+            0 => String::new(),
+            1 => "nested/".to_string(),
+            2 => "nested/deep/".to_string(),
+            _ => match files[rng.below(files.len())].0.rsplit_once('/') {
+                Some((d, _)) => format!("{d}/"),
+                None => String::new(),
+            },
+        };
+        let path = format!("{dir}{stem}.pyxis");
+        if !files.iter().any(|(p, _)| *p == path) {
+            let n = rng.below(100);
+            // Half of them declare nothing: the file is still a module and still gets its output.
+            let text = if rng.chance(1, 2) {
+                String::new()
+            } else {
+                format!("#[align(4)]\npub type Odd{n} {{ pub a: u32 }}\n")
+            };
+            files.push((path, text));
+            params.notes.push("env:unusual_module_file_name".into());
+        }
+    }
     let mut world = World::from_files(ptr, files);
 
     // Stray things in the input tree.
